@@ -1,13 +1,17 @@
 #!/bin/sh
-# tools/try_patch.sh <patch> <Cnn>...  — apply a patch to a scratch copy of /repo's tracked tree and run the quick checks on it
+# tools/try_patch.sh <patch> <Cnn>...  — apply a patch (zero fuzz) to a scratch copy of /repo's tracked tree and run the quick
+# checks on it; says so when the patched tree does not build or cannot be analysed (an empty report is not "silent" then)
 set -e
 P=$(readlink -f "$1"); shift
 D=/verif/.work/try.$$
 rm -rf "$D"; mkdir -p "$D"
 git -C /repo archive HEAD | tar -x -C "$D"
-(cd "$D" && patch -p1 -s < "$P")
+(cd "$D" && patch -p1 -s -F0 < "$P") || { echo "== PATCH DOES NOT APPLY"; rm -rf "$D"; exit 2; }
 for c in "$@"; do
-  /verif/check "$c" --tier quick --root "$D" 2>&1 | grep -E "^VIOLATION|^  key:|KNOWN" | grep -v KNOWN | head -${LINES_MAX:-6} || true
-  echo "== $c done"
+  set +e
+  /verif/check "$c" --tier quick --root "$D" > "$D/.out" 2>&1; rc=$?
+  set -e
+  grep -E "^VIOLATION|^  key:" "$D/.out" | head -${LINES_MAX:-6} || true
+  if [ $rc -ne 0 ] && [ $rc -ne 1 ]; then echo "== $c NOT ANALYSED (exit $rc): $(tail -1 "$D/.out")"; else echo "== $c done"; fi
 done
 rm -rf "$D"
